@@ -23,6 +23,7 @@ import (
 	"net"
 	"net/url"
 	"os"
+	"os/signal"
 	"path/filepath"
 	"sort"
 	"strings"
@@ -57,6 +58,7 @@ func main() {
 			"a valid authorization for a new id that carries the key of a banned (no longer registered) device, and one that carries the key of another registered device, may be accepted or refused; in both cases every other device must stay untouched",
 			"reports in this check stay inside the capacity domain of C02 (capacity < 2^64/135 for reporting devices)",
 			"fault model for the persist step: ENOENT on opening equipment-authorizations.dat (renamed away; no O_CREATE in the server) and ENOSPC on the write (the name is a symlink to /dev/full for the one request); a write that fails with EPERM while open and ftruncate succeed (sealed memfd behind a symlink, content copied back afterwards); EIO, short writes and close errors are not injected",
+			"torn scenarios: RLIMIT_FSIZE (process wide, soft limit, for one request) cuts an authorization append short; a server that then refuses to start is counted (torn.refused_to_start), only a server that comes up is judged (bans established before the restart must hold)",
 			"records whose GCA signature ends in one (thorough: sometimes two) zero byte(s) are produced by varying ProtocolFee and are the last record of the file at a restart",
 			"HTTP status classes asserted: 200 for a valid new authorization and for an exact duplicate; non-200 for bad signatures, conflicts and banned ids",
 		},
@@ -99,10 +101,12 @@ func plan(tier string, seed int64) []run.Batch {
 		add("seq", 10, 240) // 2400 sequences of about 45 operations
 		add("keyreuse", 12, 4)
 		add("conc", 10, 8)
+		add("torn", 8, 6)
 	} else {
 		add("seq", 4, 16) // 64 sequences
 		add("keyreuse", 4, 2)
 		add("conc", 3, 3)
+		add("torn", 4, 2)
 	}
 	return bs
 }
@@ -119,7 +123,7 @@ func post(c *ev.Check, outs []*run.Outcome) {
 	}
 	for _, k := range []string{"obs.new_accepted", "obs.duplicate_ok", "obs.ban", "obs.badsig_refused", "obs.banned_id_refused", "obs.report_accepted", "obs.banned_report_ignored",
 		"obs.restart", "obs.restart_with_banned_reports_on_disk", "obs.conflict_with_other_registered_key", "obs.float_roundtrip_special", "check_invariants_calls", "surface.equipment", "surface.sync", "surface.recent", "surface.stats",
-		"surface.archived_week", "keyreuse.probes", "fault.conflict", "fault.new", "fault.duplicate", "obs.fault_then_restart", "obs.fault_retry_bans", "conc.identical_rounds", "conc.conflict_rounds", "conc.fifo_rounds", "fault.mode_enoent", "fault.mode_enospc", "fault.mode_sealed", "ground.new", "ground.conflict",
+		"surface.archived_week", "keyreuse.probes", "fault.conflict", "fault.new", "fault.duplicate", "obs.fault_then_restart", "obs.fault_retry_bans", "conc.identical_rounds", "conc.conflict_rounds", "conc.fifo_rounds", "fault.mode_enoent", "fault.mode_enospc", "fault.mode_sealed", "ground.new", "ground.conflict", "torn.partial_appends",
 		"keyreuse.owner_id_class_0", "keyreuse.owner_id_class_1", "keyreuse.owner_id_class_2", "keyreuse.in_sequences"} {
 		c.Require(k, 1)
 	}
@@ -2283,6 +2287,165 @@ func runConcurrent(b run.Batch, r *ev.Result, rng *rand.Rand, n int) bool {
 	return !w.poisoned
 }
 
+// ---------------------------------------------------------------- a partial append while the server keeps running
+
+var ignoreXFSZ sync.Once
+
+// runTorn: an authorization append is cut short while the server keeps running (RLIMIT_FSIZE = file size + k for
+// the one request, SIGXFSZ ignored: the write returns a short count, then EFBIG). Later appends land behind the
+// partial record. A device authorized before the fault is then banned by a conflict, and the server is restarted.
+// Conditional oracle: the server may refuse to start on such a file (counted); IF it comes up, every ban
+// established before the restart still holds and the banned device's reports are refused.
+func runTorn(b run.Batch, r *ev.Result, rng *rand.Rand, n int) bool {
+	ignoreXFSZ.Do(func() { signal.Ignore(syscall.SIGXFSZ) })
+	w := newWorld(b, r, rng, 3000+n)
+	if w == nil {
+		return false
+	}
+	defer w.finish()
+	A := w.opNew(true)
+	w.opNew(true)
+	w.opNew(true)
+	for i := 0; i < 4 && !w.stop; i++ {
+		w.opReport(stAuthorized)
+	}
+	if A == nil || w.stop {
+		return true
+	}
+	if !A.onDisk {
+		rep := A.auth2report(w.usableSlot(), 55)
+		w.op("report id=%d slot=%d power=55 bytes=%x", A.id, rep.Slot, rep.Bytes())
+		w.Inject(rep.Bytes())
+		A.slots[rep.Slot] = &slotM{reps: map[refenc.Report]struct{}{rep: {}}, first: rep}
+		A.onDisk = true
+		w.observe(expect{kind: "report", id: A.id, what: "report of device A", class: "report"})
+	}
+	if n%2 == 1 && !w.stop { // an earlier ban as well
+		w.opConflict("Debt", "same", w.pickOther(A))
+	}
+	if w.stop {
+		return true
+	}
+	// 1. the partial append
+	k := 1 + rng.Intn(147)
+	kD := refenc.GenKey(rng)
+	aD := w.mkAuth(w.freshID(), kD.Pub, true)
+	size := uint64(len(w.file))
+	var old syscall.Rlimit
+	if err := syscall.Getrlimit(syscall.RLIMIT_FSIZE, &old); err != nil {
+		r.Inconc("getrlimit: " + err.Error())
+		return true
+	}
+	w.op("TORN APPEND: authorize new id=%d with RLIMIT_FSIZE=%d (file has %d bytes) auth=%x", aD.ID, size+uint64(k), size, aD.Bytes())
+	lim := syscall.Rlimit{Cur: size + uint64(k), Max: old.Max}
+	if err := syscall.Setrlimit(syscall.RLIMIT_FSIZE, &lim); err != nil {
+		r.Inconc("setrlimit: " + err.Error())
+		return true
+	}
+	st, ok := w.authorize(aD)
+	syscall.Setrlimit(syscall.RLIMIT_FSIZE, &old)
+	if !ok {
+		return true
+	}
+	got := w.ReadFile("equipment-authorizations.dat")
+	if len(got) < len(w.file) || !bytes.Equal(got[:len(w.file)], w.file) {
+		r.Violationf("fault:authorization-file-shrank", w.replay(), "torn append (status %d): the authorization file lost earlier records (%d -> %d bytes)", st, len(w.file), len(got))
+		w.stop = true
+		return true
+	}
+	partial := len(got) - len(w.file)
+	if partial == 0 || partial >= 148 {
+		r.Count("torn.no_partial_record_produced", 1)
+		if partial >= 148 { // the whole record went through: ordinary acceptance
+			r.Note("torn: the limited write stored %d bytes", partial)
+		}
+		return true
+	}
+	r.Count("torn.partial_appends", 1)
+	r.Nontrivial(fmt.Sprintf("torn/%d/%d", n%2, k%8))
+	if st == 200 {
+		r.Violationf("fault:answered-200-without-effect", w.replay(), "an authorization whose record was only stored partially (%d of 148 bytes) was answered 200", partial)
+	}
+	w.addDev(&dev{id: aD.ID, key: kD, auth: aD, state: stNever, slots: map[uint32]*slotM{}})
+	w.file = got // the partial tail is part of the file from now on
+	w.observe(expect{kind: "none", id: aD.ID, what: fmt.Sprintf("authorization whose append was cut after %d bytes (status %d)", partial, st), class: "torn-append"})
+	if w.stop {
+		return true
+	}
+	// 2. appends behind the partial record: a ban of A and a new device
+	w.opConflict("Debt", "same", A)
+	if w.stop {
+		return true
+	}
+	E := w.opNew(true)
+	w.opReport(stBanned)
+	if w.stop {
+		return true
+	}
+	// 3. restart
+	banned := w.sorted(stBanned)
+	w.op("restart with a partial record in the middle of the authorization file")
+	if err := w.Close(); err != nil {
+		r.Inconc("close: " + err.Error())
+		w.stop = true
+		return true
+	}
+	if err := w.Start(); err != nil {
+		r.Count("torn.refused_to_start", 1)
+		w.op("server refuses to start: %v", err)
+		w.stop = true
+		return true
+	}
+	r.Count("torn.started_again", 1)
+	snap := w.S.VerifSnapshot(true)
+	for _, d := range banned {
+		_, inEq := snap.Equipment[d.id]
+		if !snap.Bans[d.id] || inEq {
+			r.Violationf("torn-append:ban-forgotten-after-restart", w.replay(), "after a restart on a file with a partial record in the middle, id %d (banned before the restart) is banned=%v authorized=%v", d.id, snap.Bans[d.id], inEq)
+			continue
+		}
+	}
+	// reports of the banned devices are refused
+	for _, d := range banned {
+		if (d.key == refenc.Key{}) {
+			continue
+		}
+		rep := d.auth2report(w.usableSlot(), 99)
+		logBefore := w.ReadFile("equipment-reports.dat")
+		w.op("report of banned id=%d after the restart bytes=%x", d.id, rep.Bytes())
+		w.Inject(rep.Bytes())
+		s2 := w.S.VerifSnapshot(true)
+		if arr, ok := s2.Reports[d.id]; (ok && arr != nil && arr[rep.Slot-s2.Offset].PowerOutput != 0) || !bytes.Equal(logBefore, w.ReadFile("equipment-reports.dat")) {
+			r.Violationf("torn-append:banned-device-reports-accepted-after-restart", w.replay(), "a report of id %d, banned before the restart, was accepted after it", d.id)
+		}
+	}
+	if E != nil {
+		if _, ok := snap.Equipment[E.id]; ok {
+			r.Count("torn.later_device_survived", 1)
+		} else {
+			r.Count("torn.later_device_lost", 1)
+		}
+	}
+	r.Eval(1)
+	w.checkpoint()
+	w.stop = true // the model does not follow a server that read a damaged file
+	return true
+}
+
+// pickOther returns an authorized device other than d.
+func (w *world) pickOther(d *dev) *dev {
+	var c []*dev
+	for _, o := range w.sorted(stAuthorized) {
+		if o.id != d.id {
+			c = append(c, o)
+		}
+	}
+	if len(c) == 0 {
+		return nil
+	}
+	return c[w.rng.Intn(len(c))]
+}
+
 // ---------------------------------------------------------------- child
 
 func child(b run.Batch, r *ev.Result) {
@@ -2299,6 +2462,8 @@ func child(b run.Batch, r *ev.Result) {
 			ok = runKeyReuse(b, r, rng, n)
 		} else if b.Kind == "conc" {
 			ok = runConcurrent(b, r, rng, n)
+		} else if b.Kind == "torn" {
+			ok = runTorn(b, r, rng, n)
 		} else {
 			ok = runSequence(b, r, rng, n)
 		}
